@@ -213,7 +213,7 @@ func (c *Ctx) maskPropagation() {
 		if st, ok := in.(*ssa.Store); ok {
 			if of, ok := ownerField(st.Addr); ok && of == "boc.Cell.mask" {
 				for _, l := range leaves(st.Val) {
-					if l == "ic.mask" {
+					if l == "#0.mask" {
 						own = true
 					}
 				}
@@ -341,7 +341,7 @@ func (c *Ctx) cursorFreshness() {
 			if fresh {
 				_, fresh = m["pruned"][0].(*ssa.MakeMap)
 			}
-			okv = fresh && vals2leaves(m["cell"]) == "p.root"
+			okv = fresh && vals2leaves(m["cell"]) == "#0.root"
 		}
 		// and what is returned is that new cursor, not one kept in the prover
 		for _, r := range returnsOf(f) {
@@ -367,7 +367,7 @@ func (c *Ctx) cursorFreshness() {
 	if f := c.mustFn(R, "boc", "Cursor.Ref"); f != nil {
 		okv := false
 		for _, m := range literalFields(f, "Cursor") {
-			okv = vals2leaves(m["pruned"]) == "c.pruned" && strings.HasPrefix(vals2leaves(m["cell"]), "c.cell") && strings.Contains(vals2leaves(m["cell"]), "ref") && vals2leaves(m["path"]) == "c.path,ref"
+			okv = vals2leaves(m["pruned"]) == "#0.pruned" && strings.HasPrefix(vals2leaves(m["cell"]), "#0.cell") && strings.Contains(vals2leaves(m["cell"]), "#1") && vals2leaves(m["path"]) == "#0.path,#1"
 		}
 		c.check(okv, R, "Ref(i) keeps the walk's pruning set and moves to child i, extending its position by i", f.Pos(), "Cursor{cell: c.cell.refs[ref], path: c.path+i, pruned: c.pruned}", "Cursor.Ref no longer shares the walk's pruning set / moves to the requested child / extends the position with the reference index")
 	}
@@ -375,7 +375,7 @@ func (c *Ctx) cursorFreshness() {
 		okv := false
 		allInstrs(f, func(_ *ssa.BasicBlock, in ssa.Instruction) {
 			if mu, ok := in.(*ssa.MapUpdate); ok {
-				okv = strings.Join(leaves(mu.Map), ",") == "c.pruned" && strings.Join(leaves(mu.Key), ",") == "c.path"
+				okv = strings.Join(leaves(mu.Map), ",") == "#0.pruned" && strings.Join(leaves(mu.Key), ",") == "#0.path"
 			}
 		})
 		c.check(okv, R, "Prune() marks the cursor's own position in the walk's set", f.Pos(), "c.pruned[c.path] = {}", "Cursor.Prune no longer marks the cursor's current position in its pruning set")
@@ -383,7 +383,7 @@ func (c *Ctx) cursorFreshness() {
 	if f := c.mustFn(R, "boc", "MerkleProver.CreateProof"); f != nil {
 		okv := false
 		for _, cl := range callsTo(f, modPath+"/boc.immutableCell.pruneCells") {
-			okv = strings.Join(leaves(cl.Call.Args[0]), ",") == "p.root" && strings.Join(leaves(cl.Call.Args[1]), ",") == "cursor.pruned"
+			okv = strings.Join(leaves(cl.Call.Args[0]), ",") == "#0.root" && strings.Join(leaves(cl.Call.Args[1]), ",") == "#1.pruned"
 		}
 		c.check(okv, R, "CreateProof prunes the prover's root with the given cursor's set", f.Pos(), "p.root.pruneCells(cursor.pruned)", "CreateProof no longer prunes the prover's root with the pruning set of the cursor it was given")
 	}
@@ -417,14 +417,14 @@ func (c *Ctx) cursorFreshness() {
 					n++
 					if len(cl.Call.Args) > 2 {
 						ls := strings.Join(leaves(cl.Call.Args[2]), ",")
-						okv = strings.Contains(ls, "path") && inLoop(cl.Block())
+						okv = strings.Contains(ls, "#2") && inLoop(cl.Block())
 					}
 				}
 			}
 		})
 		look := false
 		allInstrs(f, func(_ *ssa.BasicBlock, in ssa.Instruction) {
-			if lk, ok := in.(*ssa.Lookup); ok && strings.Join(leaves(lk.Index), ",") == "path" && strings.Join(leaves(lk.X), ",") == "pruned" {
+			if lk, ok := in.(*ssa.Lookup); ok && strings.Join(leaves(lk.Index), ",") == "#2" && strings.Join(leaves(lk.X), ",") == "#1" {
 				look = true
 			}
 		})
